@@ -488,7 +488,10 @@ class Model:
                 elif isinstance(st, ast.ClassDef):
                     walk(st.body, prefix + st.name + '.')
                 elif isinstance(st, (ast.If, ast.Try, ast.With, ast.For, ast.While)):
+                    typing_only = isinstance(st, ast.If) and ast.unparse(st.test) in ('TYPE_CHECKING', 'typing.TYPE_CHECKING')
                     for fld in ('body', 'orelse', 'finalbody'):
+                        if typing_only and fld == 'body':
+                            continue        # overload stubs / typing-only declarations never exist at run time
                         walk(getattr(st, fld, []) or [], prefix)
                     for h in getattr(st, 'handlers', []) or []:
                         walk(h.body, prefix)
